@@ -176,7 +176,7 @@ def run(repo: Repo, tier: str) -> Report:
     # drivers: all-nodata guards + only non-nodata cells are scaled (C07) ; all-nodata pixel short-circuits
     for drv in ("gammastd_yxt", "gammastd_grp"):
         d = spi.sc[drv]
-        sent = [s for s in d.stores if s.rhs.key() == "nodata" and s.guards and s.guards[-1].startswith("eq0[sum[ne0[")]
+        sent = [s for s in d.stores if s.rhs.key() == "nodata" and s.guards and (s.guards[-1].startswith("eq0[sum[ne0[") or s.guards[-1].startswith("not[any[ne0["))]
         ob("R-FORMULA", drv, "an all-nodata pixel is written as nodata without calling the fit", len(sent) == 1,
            f"stores of nodata: {[norm_stmt(s.stmt) for s in d.stores if s.rhs.key() == 'nodata']}", sent[0].stmt if sent else f"{drv}: all-nodata store")
     # every pixel / group iteration leaves a defined value in the output: either the output starts nodata-filled, or every path
